@@ -1,6 +1,9 @@
 import RdsProps.C01
 import RdsProps.C03
+import RdsProps.C07
+import RdsProps.C08
 import RdsProps.C09
+import RdsProps.C11
 import RdsProps.C10
 import RdsProps.C12
 import RdsProps.C13
@@ -68,5 +71,54 @@ example : (utilsConvert [49,50,51,52,65,66,67,68,53,54,55,56,101,102,57,48,49,50
 
 /-- C20: `asciiOnly` is true for ordinary text groups and false for one presenting a byte ≥ 0x7F -/
 example : (Op.parse gA).asciiOnly = true ∧ (Op.parse { gA with d := 0x8041 }).asciiOnly = false := by decide
+
+/-! ## the clauses added after the mutant rounds: each holds on the model's own record and FAILS on a doctored one
+(the record of the same call with the "after" observation replaced by the "before" one — the call ignored, or
+with its events dropped), so none of them is satisfied trivially -/
+
+/-- a 2A group, flag B, block B corrected (level 1): the first type-2 group after a reset, with the RT info threshold at 1 -/
+def gNoisyB : Group := ⟨0x1234, 0x2010, 0x4142, 0x4344, 0, 1, 0, 0⟩
+def histRt : List Op := [.setCorr .rt .info 1]
+/-- the record of `op` after `ops`, and the same record with the call's effect dropped -/
+def recAfter (ops : List Op) (op : Op) : StepRec := recOf toyCfg (run toyCfg ops) op
+def ignored (r : StepRec) : StepRec := { r with after := r.before, evs := [] }
+def silent (r : StepRec) : StepRec := { r with evs := [] }
+
+/-- C08 first flag: the noisy first group IS decoded; a library that drops it as a bit-flip fails the clause -/
+example : chkC08first toyCfg (monAfter toyCfg histRt) (recAfter histRt (.parse gNoisyB)) = true ∧
+    chkC08first toyCfg (monAfter toyCfg histRt) (ignored (recAfter histRt (.parse gNoisyB))) = false := by
+  decide +kernel
+
+/-- C07 convergence: with PS progressive, an error-free reception over a corrected cell is taken; ignoring it fails -/
+def histProg : List Op := [.setProg .ps true, .setCorr .ps .data 2, .parse ⟨0x1234, 0x0408, 0x5A01, 0x5859, 0, 0, 0, 2⟩]
+example : chkC07conv toyCfg (monAfter toyCfg histProg) (recAfter histProg (.parse gA)) = true ∧
+    chkC07conv toyCfg (monAfter toyCfg histProg) (ignored (recAfter histProg (.parse gA))) = false := by
+  decide +kernel
+
+/-- "received is shown" after the extended check was on and has been switched off: PI/PTY/TP/TA/MS, the AF pair, the ECC -/
+def histMixed : List Op := [.setExt true, .parse gB, .setExt false]
+def g1A : Group := ⟨0x1234, 0x1000, 0x00E0, 0, 0, 0, 0, 0⟩
+example : chkNormalScalars (recAfter histMixed (.parse gA)) = true ∧ chkNormalScalars (ignored (recAfter histMixed (.parse gA))) = false ∧
+    chkNormalAf (recAfter histMixed (.parse gA)) = true ∧ chkNormalAf (ignored (recAfter histMixed (.parse gA))) = false ∧
+    chkNormalEcc (recAfter histMixed (.parse g1A)) = true ∧ chkNormalEcc (ignored (recAfter histMixed (.parse g1A))) = false := by
+  decide +kernel
+
+/-- C10 callback clause: with the AF callback registered the two additions are reported; dropping the reports fails -/
+def histReg : List Op := [.register .af true]
+example : chkC10cb (monAfter toyCfg histReg) (recAfter histReg (.parse gA)) = true ∧
+    chkC10cb (monAfter toyCfg histReg) (silent (recAfter histReg (.parse gA))) = false := by
+  decide +kernel
+
+/-- C08 callback clause: A (text), B, back to A with nothing acceptable: the emptied buffer is reported once; silence fails -/
+def histSwitch : List Op := [.register .rt true, .parse ⟨0x1234, 0x2000, 0x4142, 0x4344, 0, 0, 0, 0⟩,
+  .parse ⟨0x1234, 0x2010, 0x4142, 0x4344, 0, 0, 0, 0⟩]
+def gBackA : Group := ⟨0x1234, 0x2001, 0x4142, 0x4344, 0, 0, 3, 3⟩
+example : chkC08cb (monAfter toyCfg histSwitch) (recAfter histSwitch (.parse gBackA)) = true ∧
+    chkC08cb (monAfter toyCfg histSwitch) (silent (recAfter histSwitch (.parse gBackA))) = false := by
+  decide +kernel
+
+/-- C14 round trip: the hypotheses of `C14_string_reaches` are met by an ordinary group -/
+example : gNoisyB.a < 65536 ∧ gNoisyB.b < 65536 ∧ gNoisyB.c < 65536 ∧ gNoisyB.d < 65536 ∧ gNoisyB.ea < 4 ∧ gNoisyB.eb < 4 ∧
+    gNoisyB.ec < 4 ∧ gNoisyB.ed < 4 := by decide
 
 end RDS
